@@ -291,6 +291,8 @@ def _mk_tok(cid, opname, k, trivia_false):
                 lo = elem_nodes[removed_idx[0]][0]
                 hi = elem_nodes[removed_idx[-1]][1]
                 allowed = set(range(lo, hi + 1))       # lines of the removed span incl. comments between removed elements
+                if c.field == 'orelse' and len(removed_idx) == len(x.old) and lo >= 2 and src_lines[lo - 2].lstrip().startswith('else'):
+                    allowed.add(lo - 1)                      # the whole else block goes (or becomes an elif): its `else:` header line goes with it (as for a removed handler)
                 if not trivia_false:
                     l = lo - 1                               # default trivia: + the comment block directly above, + the line comment after it
                     while l >= 1 and src_lines[l - 1].strip().startswith('#'):
